@@ -52,7 +52,7 @@ func main() {
 		return nil
 	})
 	sort.Strings(dirs)
-	var mapRanges, panics, loops, ambient, stepNames []string
+	var mapRanges, panics, loops, ambient, stepNames, sorts []string
 	calls := map[string][]string{}
 	for _, d := range dirs {
 		pkgs, err := parser.ParseDir(fset, d, func(fi os.FileInfo) bool {
@@ -132,6 +132,16 @@ func main() {
 								panics = append(panics, fn+": panic")
 							}
 							if sel, ok := x.Fun.(*ast.SelectorExpr); ok {
+								if id, ok := sel.X.(*ast.Ident); ok && id.Name == "sort" {
+									// the ordering used: comparator body (or the whole call for sort.Strings & co.)
+									cmp := exprStr(fset, x)
+									if len(x.Args) == 2 {
+										if fl, ok := x.Args[1].(*ast.FuncLit); ok {
+											cmp = "sort." + sel.Sel.Name + ": " + exprStr(fset, fl.Body)
+										}
+									}
+									sorts = append(sorts, fn+": "+cmp)
+								}
 								if strings.HasPrefix(sel.Sel.Name, "Must") {
 									panics = append(panics, fn+": "+callee)
 								}
@@ -171,12 +181,13 @@ func main() {
 			}
 		}
 	}
-	for _, l := range [](*[]string){&mapRanges, &panics, &loops, &ambient, &stepNames, &rec} {
+	for _, l := range [](*[]string){&mapRanges, &panics, &loops, &ambient, &stepNames, &rec, &sorts} {
 		sort.Strings(*l)
 	}
 	var b strings.Builder
 	b.WriteString("/- REGENERATED by /verif/tools/sites (go/types, source importer) from every non-test .go file of /repo\n   except the generated internal/gontainer/gontainer.go — do not edit. -/\nnamespace GM.Generated\n\n")
 	fmt.Fprintf(&b, "/-- `range` statements over map-typed expressions -/\ndef mapRangeSites : List String := %s\n\n", leanList(uniq(mapRanges)))
+	fmt.Fprintf(&b, "/-- every call into package sort with the ordering it uses (comparator body) -/\ndef sortSites : List String := %s\n\n", leanList(uniq(sorts)))
 	fmt.Fprintf(&b, "/-- constructs that can panic: slice/array/string index, slice expression, type assertion without comma-ok, explicit panic, Must* call, strings.Repeat -/\ndef panicSites : List String := %s\n\n", leanList(uniq(panics)))
 	{
 		var ps []string
